@@ -448,6 +448,8 @@ def gff_edit(ops):
             i = op[1] % len(model)
             del f[i]
             del model[i]
+        elif op[0] == "directive":
+            f.append_directive("added-directive", "v", str(len(model)))
         view = [tuple(e) for e in f]
         if view != model or len(f) != len(model):
             return f"after {op}: entries {view} != model {model}"
@@ -462,7 +464,7 @@ def gff_edit(ops):
     return None
 
 
-gffops = [("append",), ("insert", 0), ("insert", 1), ("insert", 3), ("replace", 0), ("replace", 2), ("delete", 0), ("delete", 1), ("delete", 2)]
+gffops = [("append",), ("insert", 0), ("insert", 1), ("insert", 3), ("replace", 0), ("replace", 2), ("delete", 0), ("delete", 1), ("delete", 2), ("directive",)]
 for n in (1, 2, 3):
     for combo in itertools.product(gffops, repeat=n):
         if n == 3 and not R.thorough and (hash(combo) % 3):
